@@ -577,4 +577,160 @@ theorem good_view_from_timeouts {net : Net} (hr : Reach C net) (hA2 : TraceA2 ne
 
 end elect
 
+/-! ## discharging the consumer-side hypotheses: an approving consumer that never cancels meanwhile -/
+
+/-- with a context for `(h, v)` that is handed out and not done, and a consumer that approves without a
+cancellation arriving meanwhile, `ValidateBlockProposal` succeeds -/
+theorem askValidate_ok (w : Term.W) (h v : Nat) (blk : Option Block) (hash : Nat) (rest : List Spi)
+    (hspi : w.spi = .verdict true none :: rest) (hctx : CtxOK w.n.reg h v) : (askValidate w h v blk hash).2 = true := by
+  obtain ⟨id, hid, hdone⟩ := hctx
+  unfold askValidate ctxFor
+  simp only [W.emit]
+  rw [hid]
+  simp only [hspi, cancelMeanwhile]
+  unfold ctxDone
+  simp only [hdone, Bool.not_false, Bool.and_self]
+
+/-- no SPI answer of this step carries a cancellation that arrives during the call -/
+def NoCancel (spi : List Spi) : Prop := ∀ g cd rest, spi = Spi.verdict g cd :: rest → cd = none
+
+theorem askValidate_same (w : Term.W) (h v : Nat) (blk : Option Block) (hash : Nat) (hspi : NoCancel w.spi) :
+    C05.RegSame w.n.reg (askValidate w h v blk hash).1.n.reg := by
+  unfold askValidate
+  dsimp only
+  have h0 := C05.ctxFor_same w h v
+  have hs : (ctxFor w h v).1.spi = w.spi := rfl
+  generalize ctxFor w h v = r at h0 hs ⊢
+  obtain ⟨w1, ctx⟩ := r
+  dsimp only at h0 hs ⊢
+  cases ctx with
+  | none => exact h0
+  | some id =>
+    dsimp only
+    cases hsp : (w1.emit (Out.callValidate h blk hash)).spi with
+    | nil => exact h0
+    | cons a rest =>
+      cases a with
+      | proposal _ _ => exact h0
+      | verdict g cd =>
+        have : cd = none := hspi g cd rest (by rw [← hs]; exact hsp)
+        subst this
+        exact h0
+
+theorem processPreprepare_same (w : Term.W) (ppm : PPMsg) : C05.RegSame w.n.reg (processPreprepare w ppm).n.reg := by
+  unfold processPreprepare
+  dsimp only
+  split
+  · exact C05.RegSame.refl _
+  · exact C05.checkPreparedLocally_same _ _ _ _
+
+theorem handleNewView_same (w : Term.W) (nv : NVMsg) (hspi : NoCancel w.spi) :
+    C05.RegSame w.n.reg (handleNewView w nv).n.reg := by
+  unfold handleNewView
+  dsimp only
+  split; exact C05.RegSame.refl _
+  split; exact C05.RegSame.refl _
+  split; exact C05.RegSame.refl _
+  split; exact C05.RegSame.refl _
+  split; exact C05.RegSame.refl _
+  split; exact C05.RegSame.refl _
+  split; exact C05.RegSame.refl _
+  split; exact C05.RegSame.refl _
+  split; exact C05.RegSame.refl _
+  unfold adoptNewView
+  dsimp only
+  have key : ∀ (w1 : Term.W) (ok : Bool), C05.RegSame w.n.reg w1.n.reg →
+      C05.RegSame w.n.reg (if (!ok) = true then w1 else
+        if (!validatePreprepare w1.n ⟨nv.pp, nv.block⟩) = true then w1 else
+          if (!(initView { w1 with n := { w1.n with latestNV := nv.header.view } } nv.header.view).2) = true
+          then (initView { w1 with n := { w1.n with latestNV := nv.header.view } } nv.header.view).1
+          else processPreprepare (initView { w1 with n := { w1.n with latestNV := nv.header.view } } nv.header.view).1 ⟨nv.pp, nv.block⟩).n.reg := by
+    intro w1 ok h1
+    split
+    · exact h1
+    split
+    · exact h1
+    have hiv : (initView { w1 with n := { w1.n with latestNV := nv.header.view } } nv.header.view).1.n.reg = w1.n.reg := by
+      unfold initView; split <;> rfl
+    split
+    · rw [hiv]; exact h1
+    · refine C05.RegSame.trans h1 ?_
+      have := processPreprepare_same (initView { w1 with n := { w1.n with latestNV := nv.header.view } } nv.header.view).1 ⟨nv.pp, nv.block⟩
+      rw [hiv] at this; exact this
+  by_cases hlv : (latestVote nv.header.votes).isNone = true
+  · simp only [hlv, if_true]
+    exact key _ _ (askValidate_same w _ _ _ _ hspi)
+  · simp only [hlv]
+    exact key w true (C05.RegSame.refl _)
+
+/-! ## non-vacuity: from three started members in view 0 to three decisions in view 1
+
+Members 1, 2, 3 of `exC` have started (member 1, the leader of view 0, has proposed; nothing was
+delivered).  The crew of view 1 is its leader 2 and the followers 1 and 3.  Everything else — the
+three election timeouts, the two votes, the NEW_VIEW of member 2 with a fresh block, the PREPAREs and
+the COMMITs — is the schedule `good_view_from_timeouts` constructs. -/
+open LeanHelix.C01Net in
+theorem ex_good_view_from_timeouts :
+    ∃ net, Reach exC net ∧ ∀ j ∈ [1, 3, 2], ∃ blk cs, Out.commit blk cs ∈ net.outs j := by
+  obtain ⟨net, hr, ⟨hn, hs, ho⟩, ht⟩ := sim_reach exWF (exSched5.take 3) (SimState.init exC) (Net.init exC) .init (agrees_init exC) (by decide)
+  have hA2 : TraceA2 net.trace := by
+    have htr : net.trace = (exSched5.take 3).reverse := by rw [ht]; exact List.append_nil _
+    rw [htr]
+    intro t ht'
+    have : t ∈ (exSched5.take 3).reverse := ht'
+    intro cd rest hspi
+    have hcases : t = (3, .start true, []) ∨ t = (2, .start true, []) ∨ t = (1, .start true, [.proposal exBlock none]) := by
+      simpa [exSched5] using this
+    rcases hcases with rfl | rfl | rfl <;> cases hspi
+  have hl : ldr exC 1 = 2 := by decide
+  have crew : Crew exC 1 [1, 3] := by
+    refine ⟨by decide, by decide, by decide, ?_, by decide⟩
+    intro k hk
+    have : k = 1 ∨ k = 3 ∨ k = 2 := by rw [hl] at hk; simpa using hk
+    rcases this with rfl | rfl | rfl <;> exact ⟨rfl, ⟨_, 1⟩, by decide, rfl⟩
+  obtain ⟨net', hr', _, hc⟩ := good_view_from_timeouts exWF 0 1 [1, 3] crew (by decide) (by decide) hr hA2 ⟨77, 5, 4242⟩
+    (fun _ => [.verdict true none])
+    (by
+      intro k hk
+      have : k = 1 ∨ k = 3 ∨ k = 2 := by rw [hl] at hk; simpa using hk
+      rw [hs]
+      rcases this with rfl | rfl | rfl <;> decide)
+    (by
+      intro k hk
+      have : k = 1 ∨ k = 3 ∨ k = 2 := by rw [hl] at hk; simpa using hk
+      rw [hn]
+      rcases this with rfl | rfl | rfl <;> decide)
+    (by rw [hl, hn]; exact ⟨0, by decide, by decide⟩)
+    (by rw [hl, hn]; exact ⟨by decide, by decide⟩)
+    (by
+      intro j hj blk hblk
+      have : j = 1 ∨ j = 3 := by simpa using hj
+      rw [hn] at hblk
+      rcases this with rfl | rfl
+      · have hz : voteBlock ((sim (SimState.init exC) (exSched5.take 3)).node 1) = none := by decide
+        rw [hz] at hblk; cases hblk
+      · have hz : voteBlock ((sim (SimState.init exC) (exSched5.take 3)).node 3) = none := by decide
+        rw [hz] at hblk; cases hblk)
+    (by
+      intro j hj nv hh hv _
+      have : j = 1 ∨ j = 3 := by simpa using hj
+      rw [hh, hv, hn]
+      rcases this with rfl | rfl
+      · exact askValidate_ok _ _ _ _ _ [] rfl ⟨1, by decide, by decide⟩
+      · exact askValidate_ok _ _ _ _ _ [] rfl ⟨0, by decide, by decide⟩)
+    (by
+      intro j hj nv _ _
+      have : j = 1 ∨ j = 3 := by simpa using hj
+      have hnc : NoCancel [Spi.verdict true none] := by
+        intro g cd rest h
+        simp only [List.cons.injEq, Spi.verdict.injEq] at h
+        exact h.1.2.symm
+      rw [hn]
+      rcases this with rfl | rfl
+      · exact C05.Live.of_same (handleNewView_same _ nv hnc) ⟨by decide, by decide⟩
+      · exact C05.Live.of_same (handleNewView_same _ nv hnc) ⟨by decide, by decide⟩)
+  refine ⟨net', hr', ?_⟩
+  intro j hj
+  exact hc j (by rw [hl]; simpa using hj)
+
 end LeanHelix.C05Net
